@@ -21,6 +21,7 @@ IntV32(w) == [t |-> "i", w |-> Lo32(w), h |-> TRUE]
 PtrV(b, o) == [t |-> "p", b |-> b, o |-> o]
 FpV(x) == [t |-> "f", x |-> x]
 LabV(f, l) == [t |-> "l", f |-> f, l |-> l]
+LDiffV(f, a, b) == [t |-> "ld", f |-> f, a |-> a, b |-> b]   \* address of label a minus address of label b (two-label lref item)
 FnV(f) == [t |-> "fn", f |-> f]                 \* address of function f (a reference operand); never observable as a number
 UndefV == [t |-> "u"]
 Bad(why) == [t |-> "x", why |-> why]
@@ -52,12 +53,16 @@ LoadMem(mem, ty, b, o) ==
             THEN IntV(ExtTy(ty, BytesWord([i \in 1..n |-> cs[i].v])))
             ELSE IF ty \in {"i64", "u64", "p"} /\ \A i \in 1..n : cs[i].k = "p" /\ cs[i].i = i /\ cs[i].b = cs[1].b /\ cs[i].o = cs[1].o
                  THEN PtrV(cs[1].b, cs[1].o)
+                 ELSE IF ty \in {"i64", "u64", "p"} /\ \A i \in 1..n : cs[i].k = "l" /\ cs[i].i = i /\ cs[i].f = cs[1].f /\ cs[i].l = cs[1].l
+                 THEN LabV(cs[1].f, cs[1].l)                          \* one-label lref item
+                 ELSE IF ty \in {"i64", "u64"} /\ \A i \in 1..n : cs[i].k = "ld" /\ cs[i].i = i /\ cs[i].f = cs[1].f /\ cs[i].a = cs[1].a /\ cs[i].b = cs[1].b
+                 THEN LDiffV(cs[1].f, cs[1].a, cs[1].b)               \* two-label lref item
                  ELSE Bad("integer load of undefined, fp or partial pointer bytes")
 StoreMem(mem, ty, b, o, v) ==       \* returns [ok, m, why]
   LET n == TySize(ty) IN
   IF ~InBlock(mem, b, o, n) THEN [ok |-> FALSE, m |-> mem, why |-> "store out of bounds or dead block"]
   ELSE IF v.t = "p" /\ n # 8 THEN [ok |-> FALSE, m |-> mem, why |-> "narrow store of a pointer"]
-  ELSE IF v.t \in {"l", "fn"} THEN [ok |-> FALSE, m |-> mem, why |-> "label or function address stored to memory"]
+  ELSE IF v.t \in {"l", "fn", "ld"} THEN [ok |-> FALSE, m |-> mem, why |-> "label or function address stored to memory"]
   ELSE LET new == IF IsFpTy(ty) THEN [i \in 1..n |-> FpC(ty, i, v.x)]
                   ELSE IF v.t = "p" THEN [i \in 1..n |-> [k |-> "p", i |-> i, b |-> v.b, o |-> v.o]]
                   ELSE [i \in 1..n |-> IF v.h /\ i > 4 THEN UndefC ELSE ByteC(WordBytes(v.w)[i])]
@@ -170,6 +175,10 @@ Step ==
                  THEN IF FitsNat(b.w) /\ ToNat(b.w) < 4096
                       THEN WriteDst(I.d, PtrV(a.b, IF op = "add" THEN a.o + ToNat(b.w) ELSE a.o - ToNat(b.w)), nxt, NoOvf)
                       ELSE GoUndef("pointer arithmetic out of modelled range")
+            ELSE IF op = "add" /\ a.t = "l" /\ b.t = "ld" /\ a.f = b.f /\ a.l = b.b     \* label + (label2 - label) = label2
+                 THEN WriteDst(I.d, LabV(a.f, b.a), nxt, NoOvf)
+            ELSE IF op = "add" /\ b.t = "l" /\ a.t = "ld" /\ a.f = b.f /\ b.l = a.b
+                 THEN WriteDst(I.d, LabV(b.f, a.a), nxt, NoOvf)
             ELSE IF a.t # "i" \/ b.t # "i" THEN GoUndef("pointer used as a number")
             ELSE IF op = "and" /\ (a.h \/ b.h) /\ (HiZero(a) \/ HiZero(b))      \* the mask clears the undefined half
                  THEN WriteDst(I.d, IntV(And64(a.w, b.w)), nxt, NoOvf)
